@@ -26,11 +26,12 @@
 //      reference arithmetic with plain loops (no selfadjoint views, no rankUpdate):
 //      A = X M X^T, B = X Bmat X^T (FULL matrices), Eigen generalized solver on the full
 //      symmetric pair for the reference spectrum:
-//        R ok ref_evals <D> rq <d> res <d> gram <d*d> (P^T B P) normA normB
+//        R ok ref_evals <D> rq <d> res <d> gram <d*d> (P^T B P) norms <|A|> <|B|> condB <cond(B)>
 //  J N D d  x[N*D] (sample major)  P[D*d] (row major)
 //      compute_mean and project of routines/pca.hpp called DIRECTLY (what the three methods do after the solver):
 //        J ok mean <D> Y <N*d row major>
 //  any failure:  "<cmd> ERR <exception text>"
+#include <cmath>
 #include <cstdio>
 #include <cstdlib>
 #include <cstring>
@@ -405,7 +406,11 @@ static int do_R(std::istringstream& is)
     pv("rq", rq);
     pv("res", res);
     pm("gram", gram);
-    printf(" norms %a %a\n", As.norm(), Bs.norm());
+    // conditioning of the right-hand side: the caller scales its tolerances with it
+    Eigen::SelfAdjointEigenSolver<DenseMatrix> eb(Bs);
+    double bmin = eb.eigenvalues().minCoeff(), bmax = eb.eigenvalues().maxCoeff();
+    double condB = (bmin > 0) ? bmax / bmin : INFINITY;
+    printf(" norms %a %a condB %a\n", As.norm(), Bs.norm(), condB);
     return 0;
 }
 
